@@ -65,7 +65,14 @@ def run(input_text, opts, ext="pdb", extra_files=None, keep=False, read=(), out_
     from pdb2pqr.main import run_pdb2pqr
 
     quiet_logging()
-    d = scratch_dir()
+    # One directory per worker process, emptied before every run: the same path strings carry new
+    # content from case to case, so anything keyed by path (instead of content) turns up as a stale
+    # result in whatever property it affects.
+    import tempfile
+
+    d = os.path.join(tempfile.gettempdir(), f"vf_run_{os.getpid()}")
+    shutil.rmtree(d, ignore_errors=True)
+    os.makedirs(d)
     inp = os.path.join(d, in_name or f"in.{ext}")
     outp = os.path.join(d, out_name)
     mode = "wb" if isinstance(input_text, bytes) else "w"
